@@ -75,6 +75,16 @@ def replay_invariants(data):
     want = np.array([math.sqrt((abs(c[l * l:(l + 1) ** 2]) ** 2).sum()) for l in range(lmax + 1)])
     if len(N) != lmax + 1 or not np.allclose(N, want, rtol=1e-10):
         bad.append("N invariants are not the per-degree norms: %s vs %s" % (np.round(N, 6).tolist(), np.round(want, 6).tolist()))
+    # each N_l depends on the coefficients of degree l only: changing c_00 (the mean radius, typically orders of magnitude larger
+    # than the rest) must leave every other N_l as it is
+    for big in (2.0e5, 3.0e7, -1.0e6):
+        cs = 1e-2 * c
+        cb = cs.copy()
+        cb[0] = big
+        Ns, Nb = np.asarray(make_N_invariants(cs), float), np.asarray(make_N_invariants(cb), float)
+        if Ns.shape != Nb.shape or not np.allclose(Ns[1:], Nb[1:], rtol=1e-12, atol=0):
+            bad.append("N invariants of degree >= 1 change (by up to %.3g relative) when only c_00 is changed to %g" % (float(np.max(np.abs(Nb[1:] - Ns[1:]) / Ns[1:])) if Ns.shape == Nb.shape else -1, big))
+            break
     c2 = _wigner_rotate(c, lmax, 0.3, 1.1, -0.7)
     for kinds in ("N", "P"):
         a, b = make_invariants(lmax, c, kinds=kinds), make_invariants(lmax, c2, kinds=kinds)
@@ -139,7 +149,7 @@ def run(ctx):
     ctx.assume("exact real/complex arithmetic; Clebsch-Gordan values taken as the exact algebraic numbers the kernel's formula denotes (sqrt exact)")
     ctx.stub("invariants / descriptors of a sampled function rest on the transform grid being exact for the degree (ntheta >= l_max + 1): C07's grid rule, run here as a dependency section")
     ctx.out_of_scope("P invariants beyond l_max = %d; floating-point cancellation in the factorial formula for large l" % LP)
-    ctx.parallel_sections([("N", lambda c: part_N(c, LN)), ("power", lambda c: part_power(c, LN)), ("P", lambda c: part_P(c, LP)), ("wrapper", part_wrapper)] + __import__('verif.props.c07', fromlist=['x']).dependency_sections())
+    ctx.parallel_sections([("N", lambda c: part_N(c, LN)), ("power", lambda c: part_power(c, LN)), ("P", lambda c: part_P(c, LP)), ("wrapper", part_wrapper), ("N-float", part_N_ground)] + __import__('verif.props.c07', fromlist=['x']).dependency_sections())
 
 
 def part_wrapper(ctx):
@@ -203,6 +213,17 @@ def part_N(ctx, LN):
             if bad:
                 ctx.violation("inv:N", "N invariants are not the per-degree norms of the coefficients (l_max=%d)" % lmax, {"lmax": lmax}, replay_invariants)
                 return
+
+
+def part_N_ground(ctx):
+    """floating-point side of 'N_l depends on degree l only' (the symbolic lemma is exact arithmetic): c_00 orders of magnitude
+    above the other coefficients, real function"""
+    for lmax in (3, 8, 12):
+        r, det = replay_invariants({"lmax": lmax, "seed": lmax})
+        ctx.record("N[l_max=%d]: per-degree norms, rotation and independence of c_00 = 2e5, 3e7, -1e6 in floating point (real code)" % lmax, "counterexample" if r else "holds", nontrivial=True, method="ground instances")
+        if r:
+            ctx.violation("inv:N-float", det[0], {"lmax": lmax, "seed": lmax}, replay_invariants)
+            return
 
 
 def part_power(ctx, LN):
